@@ -108,6 +108,9 @@ impl HandlerLog {
     }
 }
 
+/// Extra action run by the recording error handler after it logged the error.
+pub static HANDLER_EXTRA: Mutex<Option<Arc<dyn Fn() + Send + Sync>>> = Mutex::new(None);
+
 // ------------------------------------------------------------------------------------------------
 // Client configuration
 // ------------------------------------------------------------------------------------------------
@@ -147,6 +150,11 @@ pub fn build_client(cfg: &ClientCfg, sink: RecSink, handler: Option<HandlerLog>)
         b = b.with_error_handler(move |e: MetricError| {
             let info = err_info(&e);
             h.log.lock().unwrap().push(info);
+            // optional extra action installed by a driver (e.g. the handler itself sending a metric)
+            let f = HANDLER_EXTRA.lock().unwrap_or_else(|e| e.into_inner()).clone();
+            if let Some(f) = f {
+                f();
+            }
         });
     }
     b.build()
